@@ -1092,7 +1092,7 @@ def hughes(C: np.ndarray) -> np.ndarray:
         raise ValueError(f"C must be an array of shape 3-by-3 or N-by-3-by-3. Got {C.shape}")
     if C.ndim < 3:
         tr = np.clip(C.trace(), -1.0, 3.0)      # Clip trace to [-1, 3]
-        if np.isclose(tr, 3.0):
+        if tr >= 3.0:
             return np.array([1., 0., 0., 0.])   # No rotation. DCM is identity.
         n = 0.5*np.sqrt(1.0 + tr)               # (eq. 15)
         if np.isclose(n, 0):                    # trace = -1: q_w = 0 (Pure Quaternion)
